@@ -1049,7 +1049,27 @@ def literal_nest_cases():
             out.append({"form": [t], "nest": nest})
     for nest in ([], [n(1)], [n(1), n(2)], [n(1), n(1)], [I(n(0), n(3)), n(3)], [I(n(2)), I(I(n(5)))]):
         out.append({"form": ["ad"], "nest": nest})
+    # items that are themselves compound nodes of the SAME kind as the aggregate, or of the other kind, holding a Python literal
+    # (what `a & False`, `True | a`, `~(a & True)` build): an aggregate that merges or simplifies its items must keep their meaning
+    E = lambda t: ["L", ["s", t]]
+    comp = [["and", "b100", "F"], ["and", "T", "b101"], ["or", "b100", "T"], ["or", "F", "b101"], ["and", ["and", "b100", "F"], "b101"],
+            ["or", ["or", "T", "b100"], "b101"], ["not", ["and", "b100", "T"]], ["and", ["or", "b100", "T"], "b101"],
+            ["or", ["and", "b100", "F"], "b101"], ["xor", "b100", "T"], ["iff", "b100", "F"], ["imp", "b100", "F"]]
+    for t in ("ct", "fo", "fa"):
+        for c in comp:
+            out.append({"form": [t], "nest": [E(c), E("b102")]})
+            out.append({"form": [t], "nest": [I(E("b102"), I(E(c))), E("b103")]})
+        out.append({"form": [t], "nest": [["L", ["a1", "B"] + comp[:4]], E("b102")]})
+        out.append({"form": ["call", {"ct": "count_true", "fo": "fold_or", "fa": "fold_and"}[t]], "ops": [["a1", "B"] + comp[:6]]})
+    icomp = [["add", "i100", 0], ["add", ["add", "i100", 1], "i101"], ["sub", "i100", ["sub", 0, "i101"]], ["neg", ["neg", "i100"]],
+             ["if", "T", "i100", "i101"], ["if", "b100", 2, "i101"]]
+    for c in icomp:
+        out.append({"form": ["ad"], "nest": [E(_strs(c)), E("i102")]})
     return out
+
+
+def _strs(t):
+    return [_strs(x) for x in t] if isinstance(t, list) else str(t)
 
 
 # ---- large cases: a handful per run (the theorems hold for all sizes; the tie to the code must see big operands too)
